@@ -134,7 +134,9 @@ def check_prog(ctx, r, prog, n_values, skip_classes=()):
                     key = next(iter(json.loads(d).keys()))
                     if key not in supported:
                         msg = w["res"].get("dec_err", "")
-                        missing = [s for s in supported if s not in msg]
+                        listed = msg.split("Messages supported by this contract:")[-1] if "Messages supported by this contract:" in msg else msg
+                        tokens = {t.strip() for t in listed.replace("\n", " ").split(",")}
+                        missing = [s for s in supported if s not in tokens]
                         if "Unsupported message" not in msg or missing:
                             ctx.violate("unknown-name-error", f"{pn} {kind}: error for unknown name `{key}` does not list the supported messages (missing {missing}): {msg[:160]}", detail)
                         ctx.count("unknown_name_errors_checked")
